@@ -31,25 +31,29 @@ Theorem C11_progress : forall ops i,
 Proof. intros ops i s Q. apply progress; [apply rinv_run, rinv_init|exact Q]. Qed.
 Print Assumptions C11_progress.
 
-(* once: a burst whose first notification arrives while streaming and whose others arrive while the stream is
-   closed and the reopen timer armed (each one pushing the timer back) causes exactly one close and one reopen,
-   on the information of the LAST notification, with the eight callbacks in order *)
-Theorem C11_once_partial : forall first rest s,
-  r_phase s = POpen -> r_balancing s = false -> r_blocked s = 0%nat ->
-  let '(s', outs) := r_run s (burst_ops first rest) in
+(* once: from every reachable streaming state, a burst -- the first notification arrives while streaming, the others at
+   any point before the reopen starts: while the close step is still running (possible from the API, a second bus event
+   or a deferred timer; they find nothing to do since the repair of defect K6) or while the stream is closed and the
+   reopen timer armed (each one pushing the timer back) -- causes exactly one close and one reopen, on the information of
+   the LAST notification, with the eight callbacks in order *)
+Theorem C11_once : forall ops i first during_close during_delay,
+  let s := fst (r_run (r_init i) ops) in
+  r_phase s = POpen ->
+  let '(s', outs) := r_run s (burst_ops first during_close during_delay) in
   outs = [BRS; BSStop; ASStop; ARS; BRE; BSStart; ASStart; ARE] /\
-  r_phase s' = POpen /\ r_cycles s' = S (r_cycles s) /\ r_range s' = last rest first /\ r_info s' = last rest first /\
+  r_phase s' = POpen /\ r_cycles s' = S (r_cycles s) /\
+  r_range s' = last (during_close ++ during_delay) first /\ r_info s' = last (during_close ++ during_delay) first /\
   r_blocked s' = 0%nat /\ r_deferred s' = r_deferred s.
-Proof. exact burst_one_cycle. Qed.
-Print Assumptions C11_once_partial.
+Proof. intros ops i first r1 r2 s P. apply burst_one_cycle; [apply rinv_run, rinv_init|exact P]. Qed.
+Print Assumptions C11_once.
 
-(* "once" is FALSE for a notification that arrives while the first one is still inside Close (possible from the
-   API and from a deferred timer): it waits for the lock and then runs a second full cycle
-   (known_findings.json: notification-during-close-runs-second-cycle) *)
-Example C11_once_refuted :
-  let '(s, outs) := r_run (r_init 1) [Notify 2; Notify 3; CloseDone; TimerFire; ReopenDone; CloseDone; TimerFire; ReopenDone] in
-  r_cycles s = 2%nat /\ outs = [BRS; BSStop; ASStop; ARS; BRE; BSStart; ASStart; ARE; BRS; BSStop; ASStop; ARS; BRE; BSStart; ASStart; ARE].
-Proof. vm_compute. split; reflexivity. Qed.
+(* a notification that arrives while the reopen is running cannot be part of it (Open() may have read the membership
+   already): it is deferred by the delay and starts the next cycle -- the next burst by the property's definition *)
+Example C11_during_reopen_next_burst :
+  let '(s, outs) := r_run (r_init 1) [Notify 2; Notify 3; CloseDone; Notify 4; TimerFire; Notify 5; ReopenDone; DeferredFire; CloseDone; TimerFire; ReopenDone] in
+  r_cycles s = 2%nat /\ r_range s = 5%N /\ quiet s = true /\
+  outs = [BRS; BSStop; ASStop; ARS; BRE; BSStart; ASStart; ARE; BRS; BSStop; ASStop; ARS; BRE; BSStart; ASStart; ARE].
+Proof. vm_compute. repeat split; reflexivity. Qed.
 
 (* nothing is delivered while the stream is closed for the rebalance: every observer is closed *)
 Theorem C11_closed_window_silent : forall s vb e,
